@@ -16,6 +16,10 @@ def run(chk, replay=None):
         cfg = cl.gen_cfg_async(rnd, max_nodes=3 if quick else 4)
         ne = 2 if quick else rnd.choice([1, 2, 3])
         steps = [max(3, cfg["steps"] - 2 * i) for i in range(ne)]
+        if g % 2 == 1:
+            # short episodes with wide windows: entries still unfilled (negative seq = default output) when the horizon ends
+            steps = [rnd.choice([3, 4, 5]) for _ in range(ne)]
+            for c in cfg["conns"].values(): c["window"] = 3
         combos = [COMBOS[(2 * g + chk.seed + i) % 6] for i in range(2)] if quick else COMBOS
         seed = rnd.getrandbits(16)
         for (m, p) in combos:
@@ -33,6 +37,9 @@ def run(chk, replay=None):
             chk.case(key, ["error"], None)
             zero = any(0 in nd["delays"] for nd in cfg["nodes"].values())
             sig = ("graph-construction-fails:noprune+zero-duration" if ("graph_error" in rr and not j["prune"] and zero) else "replay-pipeline-fails:" + e.split(":")[0])
+            import re
+            m = re.fullmatch(r"KeyError:'(\w+)'", e.strip())
+            if "graph_error" in rr and m and m.group(1) in cfg["nodes"]: sig = "graph-construction-fails:node-without-supergraph-slot"
             chk.violation(sig, f"{e[:300]}", dict(case, tb=rr.get("tb", "")[-800:])); continue
         feats = [j["mode"], "prune" if j["prune"] else "noprune", f"episodes={len(j['steps'])}"] + al.features(cfg)
         chk.case(key, feats, case if len(chk.samples) < 2 else None)
